@@ -4,6 +4,7 @@
 package drv
 
 import (
+	"bufio"
 	"context"
 	"crypto/ecdsa"
 	"crypto/elliptic"
@@ -79,6 +80,8 @@ type ScriptCfg struct {
 	UserTok   string          `json:"userTok"` // "" | enc | signenc
 	Template  string          `json:"template"`
 	NoUser    bool            `json:"noUser"`
+	// RdpDefaults: an administrator's RDP template file is configured (Client.Defaults)
+	RdpDefaults bool `json:"rdpDefaults,omitempty"`
 	// NoHooks starts the gateway without the hook channel (hooks are then no-ops
 	// and add no synchronisation of their own: used for race-detector soaks)
 	NoHooks bool `json:"noHooks,omitempty"`
@@ -369,6 +372,11 @@ func (r *Runner) NewInst(cfg ScriptCfg) (*Inst, error) {
 		NoUsername:      gw.B(cfg.NoUser),
 		UsernameTemplate: cfg.Template,
 	}
+	if cfg.RdpDefaults {
+		tp := filepath.Join(r.Work, fmt.Sprintf("defaults-%d-%d.rdp", os.Getpid(), time.Now().UnixNano()))
+		os.WriteFile(tp, []byte("audiomode:i:2\r\nconnection type:i:3\r\nremoteapplicationname:s:Verif App\r\nscreen mode id:i:1\r\n"), 0600)
+		c.ClientDefaults = tp
+	}
 	if cfg.UserTok != "" {
 		c.EnableUserToken = gw.B(true)
 		c.UserEncKey = KeyUserEnc
@@ -457,7 +465,58 @@ func (r *Runner) NewInst(cfg ScriptCfg) (*Inst, error) {
 	return in, nil
 }
 
+// hookLogSeq numbers the hook logs written by this driver process.
+var hookLogSeq struct {
+	mu sync.Mutex
+	n  int
+}
+
+// dumpHookLog writes every hook event of this gateway process, in the gateway's own order, as one NDJSON segment
+// for the Lifecycle trace specification (directory named by VDRV_HOOKLOG; nothing is written without it).
+func (i *Inst) dumpHookLog() {
+	dir := os.Getenv("VDRV_HOOKLOG")
+	if dir == "" || i.P == nil || i.Cfg.NoHooks {
+		return
+	}
+	evs := i.P.Since(0)
+	if len(evs) == 0 {
+		return
+	}
+	hookLogSeq.mu.Lock()
+	hookLogSeq.n++
+	n := hookLogSeq.n
+	hookLogSeq.mu.Unlock()
+	os.MkdirAll(dir, 0700)
+	f, err := os.Create(filepath.Join(dir, fmt.Sprintf("hooks-%d-%05d.ndjson", os.Getpid(), n)))
+	if err != nil {
+		return
+	}
+	defer f.Close()
+	w := bufio.NewWriterSize(f, 1<<20)
+	defer w.Flush()
+	enc := func(v interface{}) {
+		b, _ := json.Marshal(v)
+		w.Write(b)
+		w.WriteByte('\n')
+	}
+	enc(map[string]interface{}{"ev": "reset", "inst": n})
+	// a tunnel object is named by its address; the allocator hands addresses out again once an object is
+	// garbage, and a handler that did not find its connection id in the cache always makes a new object
+	gen := map[string]int{}
+	for _, e := range evs {
+		if e.Tun == "" || strings.HasPrefix(e.Pt, "ctl.") {
+			continue
+		}
+		if e.Pt == "gw.enter" && !e.Bool(1) {
+			gen[e.Tun]++
+		}
+		enc(map[string]interface{}{"ev": "hk", "pt": e.Pt, "u": fmt.Sprintf("%s#%d", e.Tun, gen[e.Tun]), "cid": e.Cid, "role": e.Role, "seq": e.Seq,
+			"found": e.Pt == "gw.enter" && e.Bool(1), "ok": e.Pt == "proc.dialed" && e.Bool(1), "pan": e.Panicking})
+	}
+}
+
 func (i *Inst) Stop() {
+	i.dumpHookLog()
 	if i.P != nil {
 		i.P.Stop()
 	}
